@@ -180,17 +180,17 @@ def run(rep, tier, seed):
     tg = G.TypedGen(rng)
     ug = G.Gen(rng)
     items = []
-    n_typed = 3000 if quick else 60000
+    n_typed = 12000 if quick else 150000
     for _ in range(n_typed):
         items.append(("typed", tg.any(rng.choice([1, 2, 2, 3, 3, 4, 5]))))
     # systematic typed pairs: every int/bool/double operator with every operator as operand is covered by the random
     # part only statistically, so add depth-2 typed shapes explicitly
-    for _ in range(600 if quick else 6000):
+    for _ in range(1500 if quick else 12000):
         items.append(("typed", tg.int(2)))
         items.append(("typed", tg.bool(2)))
         items.append(("typed", tg.dbl(2)))
     # untyped trees: accepted by the expression parser (no diagnostics) though not necessarily well typed
-    for _ in range(1200 if quick else 20000):
+    for _ in range(6000 if quick else 60000):
         items.append(("raw", ug.tree(rng.choice([2, 3, 4]))))
     texts = [G.render_min(t, rng) for _, t in items]
     typed_idx = [i for i, (k, _) in enumerate(items) if k == "typed"]
@@ -245,7 +245,7 @@ def run(rep, tier, seed):
         rep.violations[key]["count"] += len(lst) - 1
     # ---- queries
     qmodel = Q.MODEL
-    qitems = Q.catalogue(rng, 500 if quick else 8000)
+    qitems = Q.catalogue(rng, 2500 if quick else 30000)
     qres = exprlab.run_queries([q for _, q in qitems], qmodel, flags="w", batch=25, tag="q3")
     forms_ok = {}
     for (form, text), (r, case, crash) in zip(qitems, qres):
